@@ -1,6 +1,6 @@
 (* Extraction of the reference interpreter (ExtrOcamlBasic only; Z/N/positive/nat stay Coq
    datatypes; no Extract Constant / Extract Inductive of our own). *)
 From Coq Require Import Extraction ExtrOcamlBasic List ZArith.
-From MirV Require Import Mir.Opcode Mir.Syntax Mir.Sem C01.InsnSem.
+From MirV Require Import Mir.Opcode Mir.Syntax Mir.Sem C01.InsnSem C04.Simplify.
 Extraction Language OCaml.
-Extraction "c01x.ml" run_program observe mir_isem opcode_of_num opcode_num.
+Extraction "c01x.ml" run_program observe mir_isem opcode_of_num opcode_num consolidate.
